@@ -1,9 +1,279 @@
 package main
 
-import "golang.org/x/tools/go/ast/astutil"
+import (
+	"go/ast"
+	"go/token"
+	"go/types"
+	"strings"
 
-type raceImpl struct{ r *rewriter }
+	"golang.org/x/tools/go/ast/astutil"
+)
 
-func newRaceImpl(r *rewriter) *raceImpl        { return &raceImpl{r: r} }
-func (s *raceImpl) pre(c *astutil.Cursor) bool { return true }
-func (s *raceImpl) post(c *astutil.Cursor)     {}
+// raceImpl implements R6: every addressable struct-field selector, every
+// reference to a package-level variable of a rewritten package and every map
+// operation is wrapped at expression level so that the happens-before race
+// detector sees it.  Wrapping preserves evaluation order and addressability:
+//
+//	x.f          =>  *simrt.R(&x.f, site)
+//	x.f = v      =>  *simrt.W(&x.f, site) = v
+//	m[k]         =>  simrt.MR(m, site)[k]
+//	m[k] = v     =>  simrt.MW(m, site)[k] = v
+//	delete(m,k)  =>  delete(simrt.MW(m, site), k)
+//	len(m)       =>  len(simrt.MR(m, site))
+type raceImpl struct {
+	r      *rewriter
+	write  map[ast.Node]bool // original nodes in write position
+	skip   map[ast.Node]bool // original nodes not to wrap (operand of &, declarations)
+	funcs  []string
+	synth  map[ast.Expr]types.Type
+	mapLHS map[ast.Node]bool
+}
+
+func newRaceImpl(r *rewriter) *raceImpl {
+	return &raceImpl{r: r, write: map[ast.Node]bool{}, skip: map[ast.Node]bool{}, synth: map[ast.Expr]types.Type{}, mapLHS: map[ast.Node]bool{}}
+}
+
+func unparen(e ast.Expr) ast.Expr {
+	for {
+		p, ok := e.(*ast.ParenExpr)
+		if !ok {
+			return e
+		}
+		e = p.X
+	}
+}
+
+func (s *raceImpl) typeOf(e ast.Expr) types.Type {
+	if t, ok := s.synth[e]; ok {
+		return t
+	}
+	return s.r.info.TypeOf(e)
+}
+
+func isSyncType(t types.Type) bool {
+	if t == nil {
+		return false
+	}
+	str := t.String()
+	return strings.HasPrefix(str, "sync.") || strings.HasPrefix(str, "verif/sim/simsync.") || strings.HasPrefix(str, "*sync.") ||
+		strings.HasPrefix(str, "sync/atomic.")
+}
+
+func (s *raceImpl) curFunc() string {
+	if len(s.funcs) == 0 {
+		return "init"
+	}
+	return s.funcs[len(s.funcs)-1]
+}
+
+func (s *raceImpl) markWrite(e ast.Expr) {
+	e = unparen(e)
+	switch x := e.(type) {
+	case *ast.SelectorExpr, *ast.Ident:
+		s.write[x] = true
+	case *ast.IndexExpr:
+		s.mapLHS[x] = true
+	}
+}
+
+func (s *raceImpl) pre(c *astutil.Cursor) bool {
+	switch n := c.Node().(type) {
+	case *ast.FuncDecl:
+		name := n.Name.Name
+		if n.Recv != nil && len(n.Recv.List) > 0 {
+			t := n.Recv.List[0].Type
+			if st, ok := t.(*ast.StarExpr); ok {
+				t = st.X
+			}
+			if id, ok := t.(*ast.Ident); ok {
+				name = id.Name + "." + name
+			}
+		}
+		s.funcs = append(s.funcs, name)
+	case *ast.AssignStmt:
+		if n.Tok != token.DEFINE {
+			for _, l := range n.Lhs {
+				s.markWrite(l)
+			}
+		}
+	case *ast.IncDecStmt:
+		s.markWrite(n.X)
+	case *ast.RangeStmt:
+		if n.Tok == token.ASSIGN {
+			if n.Key != nil {
+				s.markWrite(n.Key)
+			}
+			if n.Value != nil {
+				s.markWrite(n.Value)
+			}
+		}
+	case *ast.UnaryExpr:
+		if n.Op == token.AND {
+			s.skip[unparen(n.X)] = true
+		}
+	case *ast.ValueSpec:
+		for _, id := range n.Names {
+			s.skip[id] = true
+		}
+	case *ast.KeyValueExpr:
+		if id, ok := n.Key.(*ast.Ident); ok {
+			// struct literal field names are identifiers resolved to fields; never wrap
+			s.skip[id] = true
+		}
+	case *ast.SelectorExpr:
+		// the Sel identifier itself is never a standalone variable reference
+		s.skip[n.Sel] = true
+	}
+	return true
+}
+
+func (s *raceImpl) wrapPtr(e ast.Expr, write bool, what string, t types.Type) ast.Expr {
+	fn := "R"
+	kind := "read"
+	if write {
+		fn, kind = "W", "write"
+	}
+	id := s.r.addSite(e.Pos(), kind, s.curFunc()+": "+what)
+	s.r.needRT[s.r.file] = true
+	out := &ast.StarExpr{X: rtCall(fn, &ast.UnaryExpr{Op: token.AND, X: e}, intLit(id))}
+	res := ast.Expr(&ast.ParenExpr{X: out})
+	s.synth[res] = t
+	return res
+}
+
+func (s *raceImpl) wrapMap(m ast.Expr, write bool, what string) ast.Expr {
+	fn := "MR"
+	kind := "mapread"
+	if write {
+		fn, kind = "MW", "mapwrite"
+	}
+	id := s.r.addSite(m.Pos(), kind, s.curFunc()+": "+what)
+	s.r.needRT[s.r.file] = true
+	out := rtCall(fn, m, intLit(id))
+	s.synth[out] = s.typeOf(m)
+	return out
+}
+
+func (s *raceImpl) isMapExpr(e ast.Expr) bool {
+	t := s.typeOf(e)
+	if t == nil {
+		return false
+	}
+	_, ok := t.Underlying().(*types.Map)
+	return ok
+}
+
+func (s *raceImpl) post(c *astutil.Cursor) {
+	info := s.r.info
+	switch n := c.Node().(type) {
+	case *ast.FuncDecl:
+		if len(s.funcs) > 0 {
+			s.funcs = s.funcs[:len(s.funcs)-1]
+		}
+	case *ast.SelectorExpr:
+		if s.skip[n] {
+			return
+		}
+		if sel, ok := info.Selections[n]; ok {
+			if sel.Kind() != types.FieldVal {
+				return
+			}
+			tv, ok := info.Types[n]
+			if !ok || !tv.Addressable() || isSyncType(tv.Type) {
+				return
+			}
+			what := exprString(s.r.fset, unwrapAll(n))
+			c.Replace(s.wrapPtr(n, s.write[n], what, tv.Type))
+			return
+		}
+		// qualified identifier: a package-level variable of another rewritten package
+		if v, ok := info.Uses[n.Sel].(*types.Var); ok && v.Pkg() != nil && s.r.local[v.Pkg().Path()] && v.Parent() == v.Pkg().Scope() && !isSyncType(v.Type()) {
+			c.Replace(s.wrapPtr(n, s.write[n], exprString(s.r.fset, n), v.Type()))
+		}
+	case *ast.Ident:
+		if s.skip[n] || n.Name == "_" {
+			return
+		}
+		if _, isDef := info.Defs[n]; isDef {
+			return
+		}
+		v, ok := info.Uses[n].(*types.Var)
+		if !ok || v.IsField() || v.Pkg() == nil || v.Parent() != v.Pkg().Scope() || isSyncType(v.Type()) {
+			return
+		}
+		// do not wrap when the parent is a selector using this ident as a package-level struct: x.f handles x itself here
+		c.Replace(s.wrapPtr(n, s.write[n], n.Name, v.Type()))
+	case *ast.IndexExpr:
+		if s.isMapExpr(n.X) {
+			what := exprString(s.r.fset, unwrapAll(n.X))
+			n.X = s.wrapMap(n.X, s.mapLHS[n], what)
+		}
+	case *ast.CallExpr:
+		if id, ok := n.Fun.(*ast.Ident); ok && len(n.Args) >= 1 {
+			if _, isBuiltin := info.Uses[id].(*types.Builtin); isBuiltin {
+				switch id.Name {
+				case "delete":
+					if s.isMapExpr(n.Args[0]) {
+						n.Args[0] = s.wrapMap(n.Args[0], true, exprString(s.r.fset, unwrapAll(n.Args[0])))
+					}
+				case "len":
+					if s.isMapExpr(n.Args[0]) {
+						n.Args[0] = s.wrapMap(n.Args[0], false, exprString(s.r.fset, unwrapAll(n.Args[0])))
+					}
+				}
+			}
+		}
+	case *ast.RangeStmt:
+		if s.isMapExpr(n.X) {
+			n.X = s.wrapMap(n.X, false, exprString(s.r.fset, unwrapAll(n.X)))
+		}
+	}
+}
+
+// unwrapAll strips every instrumentation wrapper inside e (for readable site descriptions).
+func unwrapAll(e ast.Expr) ast.Expr {
+	switch x := e.(type) {
+	case *ast.ParenExpr:
+		if st, ok := x.X.(*ast.StarExpr); ok {
+			if c, ok := st.X.(*ast.CallExpr); ok && isRT(c, "R", "W") {
+				if u, ok := c.Args[0].(*ast.UnaryExpr); ok {
+					return unwrapAll(u.X)
+				}
+			}
+		}
+		return &ast.ParenExpr{X: unwrapAll(x.X)}
+	case *ast.StarExpr:
+		if c, ok := x.X.(*ast.CallExpr); ok && isRT(c, "R", "W") {
+			if u, ok := c.Args[0].(*ast.UnaryExpr); ok {
+				return unwrapAll(u.X)
+			}
+		}
+		return &ast.StarExpr{X: unwrapAll(x.X)}
+	case *ast.CallExpr:
+		if isRT(x, "MR", "MW") {
+			return unwrapAll(x.Args[0])
+		}
+	case *ast.SelectorExpr:
+		return &ast.SelectorExpr{X: unwrapAll(x.X), Sel: x.Sel}
+	case *ast.IndexExpr:
+		return &ast.IndexExpr{X: unwrapAll(x.X), Index: x.Index}
+	}
+	return e
+}
+
+func isRT(c *ast.CallExpr, names ...string) bool {
+	s, ok := c.Fun.(*ast.SelectorExpr)
+	if !ok {
+		return false
+	}
+	id, ok := s.X.(*ast.Ident)
+	if !ok || id.Name != "simrt" || len(c.Args) < 1 {
+		return false
+	}
+	for _, n := range names {
+		if s.Sel.Name == n {
+			return true
+		}
+	}
+	return false
+}
